@@ -69,10 +69,11 @@ def confirm(src):
     return res
 
 
-def import_(pid, needs):
-    """Confirm /tmp/seed-<pid>/out/{A,B} and keep the confirmed ones as seeded/<pid>-<X>/."""
-    for x in ("A", "B"):
-        src = f"/tmp/seed-{pid}/out/{x}"
+def import_(pid, needs, rnd=1):
+    """Confirm /tmp/seed[2]-<pid>/out/{A,B} and keep the confirmed ones as seeded/<pid>-<X>/ (round 2: C, D)."""
+    for x0 in ("A", "B"):
+        src = f"/tmp/seed{'' if rnd == 1 else rnd}-{pid}/out/{x0}"
+        x = x0 if rnd == 1 else {"A": "C", "B": "D"}[x0] if rnd == 2 else x0 + str(rnd)
         if not os.path.exists(os.path.join(src, "patch.diff")):
             print(pid, x, "no patch"); continue
         res = confirm(src)
@@ -86,7 +87,7 @@ def import_(pid, needs):
                 shutil.copy(os.path.join(src, f), os.path.join(dst, f))
         meta = {"property": pid,
                 "origin": "written by an independent sub-agent that was given only the property text and a scratch worktree of /repo",
-                "needs_to_manifest": needs.get(x, "see notes.md"),
+                "needs_to_manifest": needs.get(x0, "see notes.md"),
                 "confirmed_by": {
                     "commands": ["demo.py on a scratch worktree of /repo HEAD (expect exit 0)", "git apply patch.diff",
                                  "/venv/bin/python -m pytest -q -p no:cacheprovider (expect 290 passed)",
@@ -163,9 +164,14 @@ if __name__ == "__main__":
         run(a[1], a[2:])
     elif a and a[0] == "import":
         needs = {}
+        rnd = 1
         for kv in a[2:]:
-            k, v = kv.split("=", 1); needs[k] = v
-        import_(a[1], needs)
+            k, v = kv.split("=", 1)
+            if k == "round":
+                rnd = int(v)
+            else:
+                needs[k] = v
+        import_(a[1], needs, rnd)
     elif a and a[0] == "table":
         table()
     else:
